@@ -191,7 +191,7 @@ _allocbuf(struct pcp_server *s, BUF *bp, int fd, int blksize)
 static void
 _error(struct pcp_server *s, const char *fmt, ...)
 {
-    static FILE *fp = NULL;
+    FILE *fp;
     char newfmt[1000];
     va_list ap;
     int save_errno = errno;   /* errno could be changed by fopen */
